@@ -268,6 +268,7 @@ type world struct {
 	pending map[string]chan struct{}
 	infos   map[*clusters.ClusterInfo]bool
 	pickers map[string]clusters.EndpointPicker
+	disabledBySpec map[string]map[int]bool // cluster -> stubs its latest object lists as disabled
 	cancels map[string]context.CancelFunc // client side of asynchronous requests (step "finish" how=cancel)
 	epSeen  map[*clusters.EndpointInfo]string // every endpoint object ever seen in a cluster (url), for step "poke"
 }
@@ -584,10 +585,17 @@ func runScenario(t *testing.T, sc scenario) []ev {
 			// wait until the controller has applied this version: endpoint set and disabled flags as specified
 			// (an endpoint may be listed more than once: it is disabled when ANY of its entries says so)
 			want := map[string]bool{}
+			if w.disabledBySpec == nil {
+				w.disabledBySpec = map[string]map[int]bool{}
+			}
+			w.disabledBySpec[s.Cluster.Name] = map[int]bool{}
 			for _, sv := range s.Cluster.Servers {
 				want[w.stubs[sv.Stub].srv.URL] = want[w.stubs[sv.Stub].srv.URL] || sv.Disabled
+				if sv.Disabled {
+					w.disabledBySpec[s.Cluster.Name][sv.Stub] = true
+				}
 			}
-			w.waitCond("cluster "+uc.Name+" applied", func() bool {
+			applied := func(flags bool) bool {
 				ci, ok := w.ctrl.Get(uc.Name)
 				if !ok {
 					return false
@@ -599,13 +607,19 @@ func runScenario(t *testing.T, sc scenario) []ev {
 				for _, ep := range eps {
 					d, ok := want[ep]
 					e, ok2 := ci.Endpoints.Load(ep)
-					if !ok || !ok2 || e.IstDisabled() != d {
+					if !ok || !ok2 || (flags && e.IstDisabled() != d) {
 						return false
 					}
 				}
 				names := ci.LoadServerNames()
 				return len(names) == 1+len(s.Cluster.Aliases)
-			})
+			}
+			// the endpoint SET and the names tell that the controller has processed this version; whether the disabled flags are what the
+			// object says is the property's business (judged from the traffic and the probes), so the harness only gives them a moment
+			w.waitCond("cluster "+uc.Name+" applied", func() bool { return applied(false) })
+			for k := 0; k < 300 && !applied(true); k++ {
+				time.Sleep(time.Millisecond)
+			}
 			time.Sleep(2 * time.Millisecond) // policies / flow control are stored right after the endpoints in the same Sync call
 			w.add(ev{"k": "applied", "cluster": s.Cluster})
 		case "delete":
@@ -652,7 +666,14 @@ func runScenario(t *testing.T, sc scenario) []ev {
 				}
 				for _, ep := range ci.AllEndpoints() {
 					e, _ := ci.Endpoints.Load(ep)
-					if e == nil || e.IsReady() != ready[w.stubOfEndpoint(ep)] {
+					if e == nil {
+						return false
+					}
+					idx := w.stubOfEndpoint(ep)
+					if w.disabledBySpec[s.Name][idx] {
+						continue // listed as disabled: that it is not used is the property's business, not something to wait for
+					}
+					if e.IsReady() != ready[idx] {
 						return false
 					}
 				}
